@@ -1,5 +1,6 @@
 import SE.Proofs.SafetyFrame
 import SE.Proofs.SafetyLine
+import SE.Proofs.SafetyLoaded
 import SE.Spec.FloatLaws
 /-
 C02 — No network input can crash or stall the exporter.
@@ -12,6 +13,10 @@ valid UTF-8 or not):
   client_golang constructor panic nor the endless loop `summaryHang` — provided the configuration is
   safe (`ConfigSafe`, SE/Props/C19.lean) and the registry was built under safe configurations
   (`VecsSafe`): `packet_total`, `history_total`;
+* the proviso is discharged by the loader: every configuration that `InitFromYAMLString` accepts is
+  `ConfigSafe` (SE/Props/C19.lean `accepted_config_safe`, under the hypotheses `LoaderAssumptions`), so no
+  byte string can make the exporter panic or hang under **any** configuration the loader accepted:
+  `packet_total_loaded`, `history_total_loaded`, `lines_total_loaded`;
 * whatever a line does is local (`hostile_line_is_local`): the registry stays well-formed and safe,
   mapper and clock are unchanged, no metric changes its type, no vector changes, and every series that
   none of the line's own events addresses is the very same record as before; any later line is therefore
@@ -66,6 +71,41 @@ theorem lines_total (rx : Rx) (m : MState V) (hc : ConfigSafe m.cfg) (pre : List
   intro m' hm'
   obtain ⟨l, _, e⟩ := List.mem_map.mp hm'
   cases e
+
+/-- **No input line can make the exporter panic or hang under any configuration the loader accepted.**
+    Let `cfg` be the result of `load` on any raw configuration satisfying `LoaderAssumptions` (the objective law of
+    the number type; `uint32` age buckets), let it be the current configuration, and let the registry be safe
+    (for instance empty). Then for every byte string `line` — any parser flags, any float parser, valid UTF-8 or
+    not — processing the events of the line never ends in a `Panic` outcome, and the state it leaves is again
+    safe under the same configuration. -/
+theorem packet_total_loaded (rxOk : Bytes → Bool) (db : List V) (dq : List (V × V)) (raw : RawConfig V) (cfg : Config V)
+    (ha : LoaderAssumptions raw) (hl : load rxOk db dq raw = .ok cfg)
+    (p : Pipe V) (hp : p.mapper.cfg = cfg) (hv : VecsSafe p.reg)
+    (rx : Rx) (fl : ParserFlags) (pf : Pf V) (valid : Bool) (line : Bytes) :
+    (∀ pn, handleEvents p rx (lineToEvents fl pf valid line).labels (lineToEvents fl pf valid line).events
+      ≠ some (.error pn)) ∧
+    (∀ p', handleEvents p rx (lineToEvents fl pf valid line).labels (lineToEvents fl pf valid line).events = some (.ok p') →
+      p'.mapper.cfg = cfg ∧ VecsSafe p'.reg) := by
+  have hc : ConfigSafe p.mapper.cfg := by rw [hp]; exact load_configSafe ha hl
+  refine ⟨fun pn => packet_total p rx fl pf valid line hc hv pn, fun p' h => ?_⟩
+  obtain ⟨a, b, _⟩ := (handleEvents_safe _ hc hv).2 p' h
+  exact ⟨by rw [b]; exact hp, a⟩
+
+/-- **No history of inputs can**, under configurations the loader accepted: any sequence of lines, sweeps, clock
+    changes and reloads of loaded configurations (`OpsLoaded`), from a safe registry. -/
+theorem history_total_loaded (rxOk : Bytes → Bool) (db : List V) (dq : List (V × V)) (raw : RawConfig V) (cfg : Config V)
+    (ha : LoaderAssumptions raw) (hl : load rxOk db dq raw = .ok cfg)
+    (rx : Rx) (p : Pipe V) (hp : p.mapper.cfg = cfg) (hv : VecsSafe p.reg) (ops : List (PipeOp V)) (ho : OpsLoaded ops)
+    (pn : Panic) : runOps rx p ops ≠ some (.error pn) :=
+  history_total rx p ops (by rw [hp]; exact load_configSafe ha hl) hv ho.opsSafe pn
+
+/-- in particular from process start (freshly loaded mapper, empty registry), with arbitrary byte strings as lines -/
+theorem lines_total_loaded (rxOk : Bytes → Bool) (db : List V) (dq : List (V × V)) (raw : RawConfig V) (cfg : Config V)
+    (ha : LoaderAssumptions raw) (hl : load rxOk db dq raw = .ok cfg)
+    (rx : Rx) (pre : List (Bytes × MType × Bytes)) (lines : List (ParserFlags × Pf V × Bool × Bytes)) (pn : Panic) :
+    runOps rx { mapper := MState.fresh cfg, reg := { metrics := [], pre := pre } }
+      (lines.map fun l => lineOp l.1 l.2.1 l.2.2.1 l.2.2.2) ≠ some (.error pn) :=
+  lines_total rx (MState.fresh cfg) (load_configSafe ha hl) pre lines pn
 
 /-- **Whatever a line does is local.** Let `h` be any byte string, processed from a state with a
     well-formed, safe registry under a safe configuration, and let `p'` be the resulting state. Then
